@@ -305,6 +305,8 @@ void OPN2::noteOn(size_t c, double tone)
 
     if(hertz < 0) // Avoid infinite loop
         return;
+    if(hertz > 131071.0) // Same: exp() overflows to +inf for far out-of-range tones
+        hertz = 131071.0;
 
     double coef;
     switch(m_chipFamily)
